@@ -107,7 +107,11 @@ func runPath(ex *Exec, fn interface{}) {
 		switch x := r.(type) {
 		case nil:
 		case pathEnd:
-			h.dropped++
+			if strings.HasPrefix(x.why, "assertion") {
+				h.endedByAssert++
+			} else {
+				h.dropped++
+			}
 		case abortPath:
 			h.aborted[x.why]++
 		case goPanic:
